@@ -34,5 +34,8 @@ for d in sorted(glob.glob(os.path.join(root, "seeded", "*"))):
     needs = str(m.get("needs_to_manifest", ""))[:170].replace("|", "/").replace("\n", " ")
     out.append(f"| {os.path.basename(d)} | {m.get('property')} | {needs} | {chk} | {note} |")
 out += ["", f"{caught} of {tot} seeded changes are flagged by the check of their property."]
+bm = os.path.join(root, "reverts", "builders_mutations.md")
+if os.path.exists(bm):
+    out += ["", open(bm).read()]
 open(os.path.join(root, "sensitivity.md"), "w").write("\n".join(out) + "\n")
 print(f"sensitivity.md: {tot} seeds")
